@@ -99,3 +99,48 @@ func vfIVFPQViewOf(idx *IVFPQIndex) vfIVFPQView {
 }
 
 func vfIVFPQDistance(idx *IVFPQIndex) Distance { return idx.distance }
+
+// ---- HNSW ----
+
+type vfHNSWSnap struct {
+	Entry    uint32
+	MaxLevel int
+	Adj0     map[uint32][]uint32 // layer-0 out-edges of every resident vertex
+	Level    map[uint32]int
+	Deleted  map[uint32]bool
+	M        int
+}
+
+func vfHNSWSnapOf(idx *HNSWIndex) vfHNSWSnap {
+	idx.mu.RLock()
+	defer idx.mu.RUnlock()
+	s := vfHNSWSnap{Entry: idx.entryPoint, MaxLevel: idx.maxLevel, Adj0: map[uint32][]uint32{}, Level: map[uint32]int{}, Deleted: map[uint32]bool{}, M: idx.M}
+	for id, n := range idx.nodes {
+		if len(n.Edges) > 0 {
+			s.Adj0[id] = append([]uint32(nil), n.Edges[0]...)
+		} else {
+			s.Adj0[id] = nil
+		}
+		s.Level[id] = n.Level
+		if idx.deletedNodes.Contains(id) {
+			s.Deleted[id] = true
+		}
+	}
+	return s
+}
+
+// vfHNSWStoredDist is the index's own distance between two resident vertices.
+func vfHNSWStoredDist(idx *HNSWIndex, a, b uint32) float32 {
+	idx.mu.RLock()
+	defer idx.mu.RUnlock()
+	return idx.distance.Calculate(idx.nodes[a].Vector(), idx.nodes[b].Vector())
+}
+
+func vfHNSWStored(idx *HNSWIndex, id uint32) []float32 {
+	idx.mu.RLock()
+	defer idx.mu.RUnlock()
+	if n := idx.nodes[id]; n != nil {
+		return vfCloneF32(n.Vector())
+	}
+	return nil
+}
